@@ -28,8 +28,8 @@ CORES = {
     "send-full": ("cq = make(chan int64, 1)\ncq <- 1\np(1)\ncq <- 2", 0),
     "range-chan": ("cq = make(chan int64)\np(1)\nfor vq in cq {\n p(2)\n}", 0),
     # two script threads contend for one buffered channel while a third drains / fills it for a while and then stops: both end up blocked
-    "send-race": ("cq = make(chan int64, 1)\ngo func() {\n for iq = 0; iq < 3000; iq++ {\n  <-cq\n }\n}()\ngo func() {\n for {\n  cq <- 1\n }\n}()\nfor {\n cq <- 2\n}", 2),
-    "recv-race": ("cq = make(chan int64, 1)\ngo func() {\n for iq = 0; iq < 3000; iq++ {\n  cq <- iq\n }\n}()\ngo func() {\n for {\n  <-cq\n }\n}()\nfor {\n xq = <-cq\n}", 2),
+    "send-race": ("cq = make(chan int64, 1)\ngo func() {\n for iq = 0; iq < 200; iq++ {\n  <-cq\n }\n}()\ngo func() {\n for {\n  cq <- 1\n }\n}()\nfor {\n cq <- 2\n}", 2),
+    "recv-race": ("cq = make(chan int64, 1)\ngo func() {\n for iq = 0; iq < 200; iq++ {\n  cq <- iq\n }\n}()\ngo func() {\n for {\n  <-cq\n }\n}()\nfor {\n xq = <-cq\n}", 2),
     "ping-pong": ("aq = make(chan int64)\nbq = make(chan int64)\ngo func() {\n for {\n  bq <- (<-aq) + 1\n }\n}()\nfor {\n aq <- 1\n p(<-bq)\n}", 1),
 }
 
@@ -94,6 +94,12 @@ def programs(ctx):
             inner = ren(WRAPS[b](core), "i")
             pre, src = wrap(a, inner)
             out.append({"id": "%s|%s|%s" % (cn, a, b), "src": src + "\np(99)", "pre": pre, "threads": th + THREADS.get(a, 0) + THREADS.get(b, 0)})
+    # several calls under ONE context contend for one buffered channel of the host, which serves them for a moment and then stops:
+    # every call ends up blocked in its send / receive, and every call must return once the context is cancelled
+    out.append({"id": "shared-send|x16", "src": "for {\n cq <- 1\n}", "pre": "", "threads": 0, "copies": 16, "feed": "drain"})
+    out.append({"id": "shared-recv|x16", "src": "for {\n xq = <-cq\n}", "pre": "", "threads": 0, "copies": 16, "feed": "fill"})
+    out.append({"id": "shared-send-fn|x16", "src": "func snd(v) {\n cq <- v\n}\nfor {\n snd(1)\n}", "pre": "", "threads": 0, "copies": 16, "feed": "drain"})
+    out.append({"id": "shared-range|x16", "src": "for vq in cq {\n xq = vq\n}", "pre": "", "threads": 0, "copies": 16, "feed": "fill"})
     return out
 
 
